@@ -226,6 +226,16 @@ def classify(schema, root, value, got):
             conflated = set()
         if conflated == {got}:
             return "F10"
+    # F44 (same mechanism as in C07): a composition with one branch is reduced to that branch, whose default
+    # thereby becomes the default of the enclosing property schema - and waives its `required`
+    if any(k in text for k in ('"anyOf"', '"oneOf"', '"allOf"')) and '"default"' in text and '"required"' in text:
+        try:
+            reduced = refmodel.verdicts(schema, value, root, curated=gv.CURATED, custom=CUSTOM_FORMATS, ecma=True,
+                                        reduced_default=True)
+        except Exception:  # pylint: disable=broad-except
+            reduced = set()
+        if got in reduced:
+            return "F44"
     return None
 
 
